@@ -30,6 +30,7 @@ THEOREMS = {
     "MG.Proofs.C11": [
         "MG.C11.routes_agree",
         "MG.C11.routes_same_target",
+        "MG.C11.canon_sound",
         "MG.C11.table_complete_forms",
         "MG.C11.const_only_raise",
         "MG.C11.no_diff_return_ndarray",
@@ -74,12 +75,12 @@ def make_operand(cls, rng, shape, dom):
     if cls == "A32":
         return _arr(rng, shape, lo, hi, np.float32)
     if cls == "Ti":
-        return mg.tensor(np.array([rng.randint(0, 4) for _ in range(int(np.prod(shape)))]).reshape(shape))
+        return mg.tensor(np.array([rng.randint(1, 4) for _ in range(int(np.prod(shape)))]).reshape(shape))
     raise ValueError(cls)
 
 
 def is_tensor_cls(c):
-    return c.startswith("T")
+    return c.startswith("T") or c == "="
 
 
 # ------------------------------------------------------------------------------------------ spellings
@@ -114,7 +115,8 @@ UNOPS = {"negative": ("-", "neg", _operator.neg), "positive": ("+", "pos", _oper
          "absolute": ("abs", "abs", _operator.abs)}
 
 PROBES_UN = ["T", "Tc", "T32"]
-PROBES_BIN = ["T,T", "T,A", "T,S", "T,Si", "A,T", "S,T", "Si,T", "Tc,Tc", "T,Tc", "T32,T32", "T32,S", "T32,Si", "T32,A", "Tc,S"]
+PROBES_BIN = ["T,T", "T,A", "T,S", "T,Si", "A,T", "S,T", "Si,T", "Tc,Tc", "T,Tc", "T32,T32", "T32,S", "T32,Si", "T32,A", "Tc,S",
+              "T,=", "T,Ti", "T32,T"]
 PROBES_POW = PROBES_BIN + ["T,S2", "T,Si2", "T,S1", "T,Si1", "T32,S2", "T32,Si2", "T32,Si1", "Tc,Si2", "S2,T"]
 PROBES_MATMUL = ["T,T", "T,A", "A,T", "Tc,Tc", "T,Tc", "T32,T32", "T32,A"]
 
@@ -278,6 +280,7 @@ def func_specs():
 
 
 _COND = np.array([[True, False, True], [False, False, True]])
+FAMILY_UFUNCS = [np.floor, np.ceil, np.rint, np.trunc, np.remainder, np.mod, np.fmod, np.floor_divide, np.divmod]
 NDARRAY_RESULT = {"any", "argmax", "argmin"}  # registered as overrides but non-differentiable: must return plain arrays
 PROBES_FN1 = ["T", "Tc", "T32"]
 PROBES_FN2 = ["T,T", "T,A", "A,T", "Tc,Tc", "T,Tc", "T32,T"]
@@ -350,11 +353,18 @@ def build_ops(sp: Sp, seed):
         shapes = [shapes[0], shapes[1][-1:]]  # broadcasting second operand
     ops, leaves = [], []
     for c, s in zip(classes, shapes):
+        if c == "=":  # the same tensor object twice
+            ops.append(ops[0])
+            leaves.append(None)
+            continue
         x = make_operand(c, rng, s, sp.dom)
         leaves.append(x if isinstance(x, Tensor) else None)
         ops.append(x)
     if sp.form == "inplace(a)" and isinstance(ops[0], Tensor):
         ops[0] = +ops[0]  # mutate a non-leaf so that the gradient of the pre-mutation value stays observable on the leaf
+        for i, c in enumerate(classes):
+            if c == "=":
+                ops[i] = ops[0]
     # aux operands: out targets and masks (same values for every spelling of the group)
     res_shape, res_dtype = None, None
     for a in sp.aux:
@@ -602,21 +612,22 @@ def _has_tensor(x):
 def registry_behaviour():
     """observed behaviour of every member of the registry sets (recorded into the table; also the oracle's facts)"""
     res = {"boolOnly": [], "constOnly": [], "noDiff": [], "raisesOnNonConstant": [], "worksOnConstant": [],
-           "returnsNdarray": [], "details": {}, "unknown": []}
+           "returnsNdarray": [], "details": {}, "family_details": {}, "unknown": []}
     nodiff = list(tb._REGISTERED_NO_DIFF_NUMPY_FUNCS) + [f for f in tb._REGISTERED_DIFFERENTIABLE_NUMPY_FUNCS if f.__name__ in NDARRAY_RESULT]
     res["boolOnly"] = sorted(f.__name__ for f in tb._REGISTERED_BOOL_ONLY_UFUNC)
     res["constOnly"] = sorted(f.__name__ for f in tb._REGISTERED_CONST_ONLY_UFUNC)
     res["noDiff"] = sorted(f.__name__ for f in nodiff)
-    for f in tb._REGISTERED_CONST_ONLY_UFUNC:
+    # the family is anchored here, independently of the registry (a member dropped from the registry is still checked)
+    family = {f.__name__: f for f in list(FAMILY_UFUNCS) + list(tb._REGISTERED_CONST_ONLY_UFUNC)}
+    res["family"] = sorted(family)
+    for f in family.values():
         d = {}
         try:
             r = _call_registry_fn(f, const=False)
             d["nonconst"] = "returned:" + type(r).__name__
-        except ValueError as e:
-            d["nonconst"] = "ValueError"
-            res["raisesOnNonConstant"].append(f.__name__)
-        except Exception as e:  # noqa
+        except Exception as e:  # noqa  — any error is a refusal
             d["nonconst"] = type(e).__name__
+            res["raisesOnNonConstant"].append(f.__name__)
         try:
             r = _call_registry_fn(f, const=True)
             ref = _call_registry_fn(f, const=True, use_raw=True)
@@ -625,7 +636,7 @@ def registry_behaviour():
                 res["worksOnConstant"].append(f.__name__)
         except Exception as e:  # noqa
             d["const"] = type(e).__name__
-        res["details"][f.__name__] = d
+        res["family_details"][f.__name__] = d
     for f in list(tb._REGISTERED_BOOL_ONLY_UFUNC) + nodiff:
         d = {}
         for const in (False, True):
@@ -679,7 +690,7 @@ def render_table(routes, missing, reg):
     targets = sorted({c["target"] for _, r in routes for c in r["calls"]} | {"Square", "Power", "Positive", "Transpose", "Tensor_Transpose_Property"})
     options = sorted({o for _, r in routes for c in r["calls"] for o in c["options"]})
     others = sorted({a[1] for _, r in routes for c in r["calls"] for a in c["operands"] if a[0] == "other"})
-    fns = sorted(set(reg["boolOnly"]) | set(reg["constOnly"]) | set(reg["noDiff"]))
+    fns = sorted(set(reg["boolOnly"]) | set(reg["constOnly"]) | set(reg["noDiff"]) | set(reg["family"]))
     ix = lambda l: {v: i for i, v in enumerate(l)}
     OP, PR, SPL, TG, OPT, OTH, FN = ix(ops), ix(probes), ix(spellings), ix(targets), ix(options), ix(others), ix(fns)
     assert len(probes) < 64 and len(FORMS) < 8
@@ -967,9 +978,9 @@ def family_oracle():
     """-> list of failures (dicts) for the const-only / no-diff clauses, plus facts for the evidence"""
     fails, facts = [], {}
     reg = registry_behaviour()
-    for name in reg["constOnly"]:
-        d = reg["details"][name]
-        if d["nonconst"] != "ValueError":
+    for name in reg["family"]:
+        d = reg["family_details"][name]
+        if d["nonconst"].startswith("returned"):
             fails.append({"family": name, "a": {"label": f"np.{name}(non-constant)", "probe": "T"}, "b": {"label": "raise"}, "what": "accepted-non-constant:" + d["nonconst"], "kind": "family", "fn": name})
         if d["const"] != "ok":
             fails.append({"family": name, "a": {"label": f"np.{name}(constant)", "probe": "Tc"}, "b": {"label": "numpy"}, "what": "constant:" + d["const"], "kind": "family", "fn": name})
@@ -1021,7 +1032,7 @@ def run(ctx: Ctx) -> Outcome:
     sps = [sp for sp, _ in routes]
     global _GROUPS
     _GROUPS = _group_spellings(sps)
-    nseeds = ctx.n(4, 24)
+    nseeds = ctx.n(6, 30)
     seeds = [ctx.seed * 1000 + i for i in range(nseeds)]
     keys = sorted(_GROUPS)
     res = pmap(check_group, [(k, seeds) for k in keys])
